@@ -170,7 +170,7 @@ class Rewriter:
             self.note('R15', mt.group(0))
             return 'heap.alloc(%s)' % mt.group(1)
         body = re.sub(r'Box::into_raw\(\s*Box::new\(\s*(\w+)\s*\)\s*\)', _alloc, body)
-        for a, b in (('get_mut', 'hget_mut'), ('get_extended', 'hget_extended'), ('get', 'hget_snap' if snapshot else 'hget')):
+        for a, b in (('get_mut', 'hget_mut'), ('get_extended', 'hget_extended'), ('read', 'hread'), ('get', 'hget_snap' if snapshot else 'hget')):
             while True:
                 m = mask(body)
                 mt = re.search(r'\.\s*%s\s*\(\s*\)' % a, m)
